@@ -455,7 +455,41 @@ pub mod hex {
     use super::super::sp::*;
     use vstd::prelude::*;
     pub trait ToHex {}
-    pub trait FromHex {}
+    /// error of `FromHex for [u8; N]`
+    pub struct FromHexError { pub _p: () }
+    impl core::fmt::Display for FromHexError {
+        #[verifier::external_body]
+        fn fmt(&self, f: &mut core::fmt::Formatter<'_>) -> core::fmt::Result { unimplemented!() }
+    }
+    pub open spec fn is_hex_byte(c: u8) -> bool { (0x30 <= c <= 0x39) || (0x61 <= c <= 0x66) || (0x41 <= c <= 0x46) }
+    pub open spec fn hex_nibble(c: u8) -> int { if c <= 0x39 { c - 0x30 } else if c >= 0x61 { c - 0x61 + 10 } else { c - 0x41 + 10 } }
+    /// the bytes a text of hex digits (either case) denotes
+    pub open spec fn hex_decode(s: Seq<u8>) -> Seq<u8> {
+        Seq::new(s.len() / 2, |i: int| (hex_nibble(s[2 * i]) * 16 + hex_nibble(s[2 * i + 1])) as u8)
+    }
+    pub open spec fn hex_text_ok(s: Seq<u8>, n: nat) -> bool { s.len() == 2 * n && forall|i: int| 0 <= i < s.len() ==> is_hex_byte(#[trigger] s[i]) }
+    /// `hex::FromHex`: ghost `spec_from_hex` = the value a text denotes, if the type accepts it
+    pub trait FromHex: Sized {
+        type Error;
+        spec fn spec_from_hex(s: Seq<u8>) -> Option<Self>;
+        fn from_hex<T: AsRef<[u8]>>(hex: T) -> (r: Result<Self, Self::Error>)
+            ensures match Self::spec_from_hex(hex.aref()@) { Some(v) => r == Ok::<Self, Self::Error>(v), None => r is Err };
+    }
+    /// the 32-byte array with the given contents
+    pub uninterp spec fn arr32_of(b: Seq<u8>) -> [u8; 32];
+    #[verifier::external_body]
+    pub broadcast proof fn axiom_arr32_of(b: Seq<u8>)
+        ensures b.len() == 32 ==> (#[trigger] arr32_of(b))@ == b,
+    {}
+    /// `impl FromHex for [u8; 32]`: exactly 64 hex digits of either case, decoded pairwise
+    impl FromHex for [u8; 32] {
+        type Error = FromHexError;
+        open spec fn spec_from_hex(s: Seq<u8>) -> Option<[u8; 32]> {
+            if hex_text_ok(s, 32) { Some(arr32_of(hex_decode(s))) } else { None }
+        }
+        #[verifier::external_body]
+        fn from_hex<T: AsRef<[u8]>>(hex: T) -> (r: Result<Self, Self::Error>) { unimplemented!() }
+    }
     /// lower-case hex digit of a nibble
     pub open spec fn hex_digit(n: int) -> char { if n < 10 { ((0x30 + n) as u8) as char } else { ((0x61 + n - 10) as u8) as char } }
     /// `hex::encode`: two lower-case hex digits per byte
